@@ -1,5 +1,6 @@
 import Casket.Proofs.FileServe
 import Casket.Spec.Chain
+import Casket.Model.Cond
 /-
 Helper lemmas for C03 (core Lean only).
 
@@ -234,7 +235,8 @@ theorem staticContent_file_cases {fs : FS} {site : Site} {r : Req} {d : Entry} {
     (hd : dirOpen fs site.root p = .ok d) (h : staticContent fs site r d p = .file ino enc) :
     ∃ q0 e0, dirOpen fs site.root q0 = .ok e0 ∧ e0.isDir = false ∧
       ((q0 = p ∧ e0 = d) ∨ (d.isDir = true ∧ ∃ ip ∈ site.indexPages, q0 = join2 p ip)) ∧
-      (e0.ino = ino ∨ ∃ ne ∈ site.encodings, ∃ e, dirOpen fs site.root (q0 ++ ne.2) = .ok e ∧ e.isDir = false ∧ e.ino = ino) := by
+      (e0.ino = ino ∨ ∃ ne ∈ site.encodings, ∃ e, dirOpen fs site.root (q0 ++ ne.2) = .ok e ∧ e.isDir = false ∧ e.ino = ino) ∧
+      e0 = (resolveIndex fs site d p).1 := by
   unfold staticContent at h
   simp only [] at h
   have hres : (resolveIndex fs site d p = (d, p)) ∨
@@ -262,8 +264,9 @@ theorem staticContent_file_cases {fs : FS} {site : Site} {r : Req} {d : Entry} {
       · refine ⟨join2 p ip, (resolveIndex fs site d p).1, ?_, hop, Or.inr ⟨hdir, ip, hm, rfl⟩⟩
         rw [← hq]
     obtain ⟨q0, e0, hr, hop0, hwhich⟩ := hbase
+    have hres0 : e0 = (resolveIndex fs site d p).1 := by rw [hr]
     rw [hr] at h hnot
-    refine ⟨q0, e0, hop0, hnot.1, hwhich, ?_⟩
+    refine ⟨q0, e0, hop0, hnot.1, hwhich, ?_, hres0⟩
     split at h
     · rename_i ne hfs
       obtain ⟨name, e⟩ := ne
@@ -599,7 +602,7 @@ theorem guarded_verdict_ok {fs : FS} {cs : ChainSite} {r : CReq} {u : Url}
           have hs := browseServe_file hb
           obtain ⟨d, hd, hlf, hld, hsc⟩ := staticServe_file_inv hs
           simp only [] at hd hsc hlf hld
-          obtain ⟨q0, e0, hop0, hf0, hwhich, hino⟩ := staticContent_file_cases hd hsc
+          obtain ⟨q0, e0, hop0, hf0, hwhich, hino, hres0⟩ := staticContent_file_cases hd hsc
           obtain ⟨t, ht⟩ := hu
           obtain ⟨_, _, hlast, _⟩ := fullPath_facts (site := cs.site) (t := t) hpre
           -- the plain file (named directly, or an index page) is not covered
@@ -680,6 +683,76 @@ theorem chainServe_verdict_ok {fs : FS} {cs : ChainSite} {r : CReq}
         · exact hok.1
         · exact (trimPathPrefix_ok hok).1
       exact guarded_verdict_ok hroot hpre hrd (authUrl_rooted fs cs u0.path _ hu hw) hl his hss has hbs
+
+/-- The file whose mtime goes into Last-Modified (the named file or index page, before sibling
+substitution) is not covered either whenever a file answer is served: HEAD, 304 and 206 answers
+disclose no metadata of a covered file. -/
+theorem guarded_resolved_ok {fs : FS} {cs : ChainSite} {r : CReq} {u : Url} {ino : Nat} {enc : Option Bytes}
+    (hroot : NormalSegs cs.site.root) (hpre : NormalPrefix cs.site.pathPrefix) (hrd : RootIsDir fs cs.site)
+    (hu : Rooted u.path) (hl : NoHardLinks fs) (his : IndexSafe fs cs r.creds)
+    (hg : guarded fs cs r u = .served (.file ino enc)) :
+    ChainSpec.verdict fs cs r (.served (.file (Casket.Cond.resolvedIno fs cs.site u) none)) = "ok" := by
+  unfold ChainSpec.verdict
+  by_cases hopt : r.method = mOPTIONS
+  · simp [hopt]
+  · simp only [hopt, if_false]
+    rcases guarded_served_inv hg with h404 | ⟨hint, hauth, hb⟩
+    · simp at h404
+    · have hna : needsAuth cs.auth u.path r.creds = false := hauth.resolve_left hopt
+      have hcovu : covered cs r.creds u.path = false := by unfold covered; rw [hna, hint]; rfl
+      have hs := browseServe_file hb
+      obtain ⟨d, hd, hlf, hld, hsc⟩ := staticServe_file_inv hs
+      simp only [] at hd hsc hlf hld
+      obtain ⟨q0, e0, hop0, hf0, hwhich, _, hres0⟩ := staticContent_file_cases hd hsc
+      obtain ⟨t, ht⟩ := hu
+      obtain ⟨_, _, hlast, _⟩ := fullPath_facts (site := cs.site) (t := t) hpre
+      have hcov0 : covered cs r.creds (canonURL cs.site e0) = false := by
+        rcases hwhich with ⟨hq, he⟩ | ⟨hdir, ip, hip, hq⟩
+        · subst hq; subst he
+          exact direct_not_covered hroot hpre hrd ⟨t, ht⟩ hg hop0 hf0
+        · have hsl : u.path.getLast? = some slash := by
+            rw [ht, ← hlast, ← ht]; exact hld hdir
+          cases hc : covered cs r.creds (canonURL cs.site e0) with
+          | false => rfl
+          | true => rw [his _ _ _ ⟨t, ht⟩ hsl hip (hq ▸ hop0) hf0 hc] at hcovu; cases hcovu
+      obtain ⟨h1, h2⟩ := not_flagged hl (dirOpen_mem hop0 hf0) hcov0
+      have hri : Casket.Cond.resolvedIno fs cs.site u = e0.ino := by
+        simp [Casket.Cond.resolvedIno, hd, hres0]
+      rw [hri]
+      simp [contentInos, h1, h2]
+
+theorem chainServe_finalUrl {fs : FS} {cs : ChainSite} {r : CReq} {u : Url} (h : finalUrl fs cs r = some u) :
+    chainServe fs cs r = guarded fs cs r u ∧ (TargetsNonEmpty cs → Rooted u.path) := by
+  unfold finalUrl at h
+  unfold chainServe
+  cases hp : parseRequestURI r.target with
+  | none => simp [hp] at h
+  | some u0 =>
+    simp only [hp] at h ⊢
+    split at h
+    · simp at h
+    · rename_i hc
+      simp only [Option.some.injEq] at h
+      rw [if_neg hc, h]
+      refine ⟨rfl, ?_⟩
+      intro hw
+      have hok := parseRequestURI_ok hp
+      have hu : Rooted (if cs.site.pathPrefix = [slash] then u0 else trimPathPrefix u0 cs.site.pathPrefix).path := by
+        split
+        · exact hok.1
+        · exact (trimPathPrefix_ok hok).1
+      rw [← h]
+      exact authUrl_rooted fs cs u0.path _ hu hw
+
+/-- Whole chain: the file named by Last-Modified / used for If-Modified-Since passes the judge too. -/
+theorem chainServe_resolved_ok {fs : FS} {cs : ChainSite} {r : CReq} {u : Url} {ino : Nat} {enc : Option Bytes}
+    (hroot : NormalSegs cs.site.root) (hpre : NormalPrefix cs.site.pathPrefix) (hrd : RootIsDir fs cs.site)
+    (hw : TargetsNonEmpty cs) (hl : NoHardLinks fs) (his : IndexSafe fs cs r.creds)
+    (hu : finalUrl fs cs r = some u) (h : chainServe fs cs r = .served (.file ino enc)) :
+    ChainSpec.verdict fs cs r (.served (.file (Casket.Cond.resolvedIno fs cs.site u) none)) = "ok" := by
+  obtain ⟨he, hr⟩ := chainServe_finalUrl hu
+  rw [he] at h
+  exact guarded_resolved_ok hroot hpre hrd (hr hw) hl his h
 
 /-- With credentials every covering rule accepts, basicauth is transparent. -/
 theorem needsAuth_of_accepts (rules : List AuthRule) (p : Bytes) (creds : Option (Bytes × Bytes))
